@@ -134,20 +134,22 @@ func ResponseEncoder(ctx context.Context, w http.ResponseWriter) Encoder {
 		if ct != "" {
 			// If content type explicitly set in the DSL, infer the response encoder
 			// from the content type context key.
-			if mt, _, err = mime.ParseMediaType(ct); err == nil {
-				switch {
-				case mt == "application/json" || strings.HasSuffix(mt, "+json"):
-					enc = json.NewEncoder(w)
-				case mt == "application/xml" || strings.HasSuffix(mt, "+xml"):
-					enc = xml.NewEncoder(w)
-				case mt == "application/gob" || strings.HasSuffix(mt, "+gob"):
-					enc = gob.NewEncoder(w)
-				case mt == "text/html" || mt == "text/plain" ||
-					strings.HasSuffix(mt, "+html") || strings.HasSuffix(mt, "+txt"):
-					enc = newTextEncoder(w, mt)
-				default:
-					enc = json.NewEncoder(w)
-				}
+			if mt, _, err = mime.ParseMediaType(ct); err != nil {
+				// default to JSON if the content type cannot be parsed
+				mt = "application/json"
+			}
+			switch {
+			case mt == "application/json" || strings.HasSuffix(mt, "+json"):
+				enc = json.NewEncoder(w)
+			case mt == "application/xml" || strings.HasSuffix(mt, "+xml"):
+				enc = xml.NewEncoder(w)
+			case mt == "application/gob" || strings.HasSuffix(mt, "+gob"):
+				enc = gob.NewEncoder(w)
+			case mt == "text/html" || mt == "text/plain" ||
+				strings.HasSuffix(mt, "+html") || strings.HasSuffix(mt, "+txt"):
+				enc = newTextEncoder(w, mt)
+			default:
+				enc = json.NewEncoder(w)
 			}
 			SetContentType(w, mt)
 			return enc
